@@ -2,6 +2,8 @@
    *implementation* answered.  Input words: `<flush op args> => <impl output words>`. -/
 import GluonModel.Driver.DFlush
 
+-- DIALECT: judge-c05-flush judgeC05
+-- DIALECT: judge-c01-flush judgeC01
 namespace Gluon.Driver
 open Gluon Codec
 
